@@ -96,7 +96,7 @@ def run_try_undo(w, unchecked):
                 problems.append('try/undo can halt on the committed timeline')
         for want in (('B', None), ('H', None), ('B', 'return'), ('B', 'break'), ('H', 'return')):
             if want not in seen: problems.append(f'vacuity: expected leaf {want} not reachable')
-        L.add('LEAVES', 'failed' if problems else 'discharged', t0, ('C02', 'C03', 'C08'),
+        L.add('LEAVES', 'failed' if problems else 'discharged', t0, ('C02', 'C03', 'C08') + (('C15',) if unchecked else ()),
               {'formula': 'try B undo H = exactly one of B / H; H iff a run of B from the entry state reaches defeat, and then nothing of B is observable; '
                           'fp, ap, defeat at the end as at try entry', 'message': '; '.join(sorted(set(problems))), 'leaves': len(leaves)})
         if not unchecked: L.prove_all('SAFE', eng.safety, ('C04',))
@@ -165,7 +165,7 @@ def run_try_stop(w, unchecked):
                           '(on every way of getting there: real run, virtual run completing, through the handler)',
                'message': '; '.join(sorted(set(problems))), 'leaves': len(leaves)}
         if problems: det['replay'] = replay_stop_then_undo(w, unchecked)
-        L.add('LEAVES', 'failed' if problems else 'discharged', t0, ('C02', 'C03', 'C08'), det)
+        L.add('LEAVES', 'failed' if problems else 'discharged', t0, ('C02', 'C03', 'C08') + (('C15',) if unchecked else ()), det)
         if not unchecked: L.prove_all('SAFE', eng.safety, ('C04',))
         from contracts.lem_block import modes_enum
         L.functions.update(['hidc.ast.blocks.TryBlock.exit_modes', 'hidc.ast.blocks.StopBlock.exit_modes'])
@@ -242,7 +242,7 @@ def run_preempt(virtual, w, unchecked):
                 problems.append(f'unexpected blocks {ev}')
         if not ran: problems.append('vacuity: no leaf runs the preempt block')
         if not skipped: problems.append('vacuity: no leaf skips the preempt block')
-        L.add('LEAVES', 'failed' if problems else 'discharged', t0, ('C02', 'C08'),
+        L.add('LEAVES', 'failed' if problems else 'discharged', t0, ('C02', 'C08') + (('C15',) if unchecked else ()),
               {'formula': 'preempt P: P runs <=> skipping it leads to defeat (continuation halts) or defeat is virtual; it starts from the state at the statement; '
                           'fp/ap unchanged afterwards', 'message': '; '.join(sorted(set(problems))), 'leaves': len(leaves)})
         if not unchecked: L.prove_all('SAFE', eng.safety, ('C04',))
@@ -322,7 +322,7 @@ def run_speculation(t, lsh, rsh, keep, r_out, w, unchecked):
                 problems.append(f'leaf does not determine {s_.c}')
             problems += inv_regs(L, l, defeat=L.entry.regs['defeat'])
         if lsh == 'opaque' and (not n_both or not n_right): problems.append(f'vacuity: both={n_both} right-only={n_right}')
-        L.add('LEAVES', 'failed' if problems else 'discharged', t0, ('C02', 'C01'),
+        L.add('LEAVES', 'failed' if problems else 'discharged', t0, ('C02', 'C01') + (('C15',) if unchecked else ()),
               {'formula': 'a ?? b: b evaluated first, always; a committed iff its value differs from b; result a if it differs else b; registers/frame as for any expression',
                'message': '; '.join(sorted(set(problems))), 'leaves': len(leaves)})
         L.nobot(leaves, ('C03',))
@@ -446,7 +446,7 @@ def run_defeat_prims(virtual, w, unchecked):
                 if l.kind == 'exit': problems += inv_regs(L, l, defeat=E.regs['defeat'])
             want = {'defeat'} if cond in ('<is_defeat>', 'true') else ({'pass'} if cond == 'false' else {'defeat', 'pass'})
             if not want <= kinds: problems.append(f'vacuity: {sorted(kinds)}')
-            L.add('LEAVES', 'failed' if problems else 'discharged', t0, ('C02', 'C09', 'C01') + (('C03',) if virtual else ()),
+            L.add('LEAVES', 'failed' if problems else 'discharged', t0, ('C02', 'C09', 'C01') + (('C03',) if virtual else ()) + (('C15',) if unchecked else ()),
                   {'formula': '!truth_is_defeat(c): operands evaluated once, in order; defeat (halt, or jump to the defeat word when virtual) <=> c; otherwise falls through unchanged',
                    'message': '; '.join(sorted(set(problems))), 'leaves': len(leaves)})
             if not unchecked: L.prove_all('SAFE', eng.safety, ('C04',))
@@ -515,9 +515,17 @@ def ob_preemptive_marker(w=2):
 
 def tasks(tier):
     out = [task(MOD, 'ob_preemptive_marker', ('C02', 'C05'), label='time/preemptive-marker', cost=3)]
-    P = ('C01', 'C02', 'C03', 'C04', 'C08', 'C09', 'C10', 'C16')
+    P = ('C01', 'C02', 'C03', 'C04', 'C08', 'C09', 'C10', 'C15', 'C16')
     for w in ((2,) if tier == 'quick' else (2, 3, 4, 8)):
-        for unchecked in ((False,) if tier == 'quick' else (False, True)):
+        for unchecked in (False, True):
+            if unchecked and tier == 'quick':
+                # time travel is control logic, not a run-time check: the same leaf sets in an unchecked build (C15); the cheap families only
+                out.append(task(MOD, 'run_try_undo', P, label=f'time/try-undo/w{w}/u1', w=w, unchecked=True, cost=3))
+                out.append(task(MOD, 'run_try_stop', P, label=f'time/try-stop/w{w}/u1', w=w, unchecked=True, cost=5))
+                for virtual in (False, True, 'try'):
+                    vn = {False: 0, True: 1, 'try': 'try'}[virtual]
+                    out.append(task(MOD, 'run_preempt', P, label=f'time/preempt/v{vn}/w{w}/u1', virtual=virtual, w=w, unchecked=True, cost=3))
+                continue
             out.append(task(MOD, 'run_try_undo', P, label=f'time/try-undo/w{w}/u{int(unchecked)}', w=w, unchecked=unchecked, cost=3))
             out.append(task(MOD, 'run_try_stop', P, label=f'time/try-stop/w{w}/u{int(unchecked)}', w=w, unchecked=unchecked, cost=5))
             for virtual in (False, True, 'try'):
